@@ -116,6 +116,17 @@ func (m *C17) invariants(w *world.World, s *DidState, where string) {
 			}
 		}
 	}
+	// an eip155 account is the same account however its hex address is capitalised
+	canon := map[string]string{}
+	for aid, d := range s.DidOf {
+		if strings.HasPrefix(aid, "eip155:") {
+			c := strings.ToLower(aid)
+			if prev, ok := canon[c]; ok {
+				w.Violate("C17", "account-bound-twice-under-case-variants", fmt.Sprintf("%s: Ethereum account %s is bound more than once (to %s and %s) under differently capitalised account ids", where, c, prev, d), nil)
+			}
+			canon[c] = d
+		}
+	}
 	// payment addresses
 	kidOf := map[string]string{}
 	for addr, kd := range s.Kid {
@@ -368,9 +379,34 @@ func scnDidReg(ctx *check.JobCtx) {
 			if corrupt {
 				cs = "create/eip155-corrupt"
 			}
-			if e := bind(cs, acct, acct, sid, p, accId, !corrupt, sid.Versions[0].Keys); e.OK && !corrupt {
-				_ = e
+			// the same Ethereum account written with other letter case is still the same account
+			variant := r.Intn(3)
+			if variant == 1 {
+				accId = "eip155:1:0x" + strings.ToUpper(accId[len("eip155:1:0x"):])
+				cs += "/uppercase"
+			} else if variant == 2 {
+				h := accId[len("eip155:1:0x"):]
+				accId = "eip155:1:0x" + strings.ToUpper(h[:20]) + h[20:]
+				cs += "/mixedcase"
 			}
+			p.Account = accId
+			// an eip155 binding to an EXISTING sid by a creator bound to it, half of the time
+			if len(sids) > 0 && r.Intn(2) == 0 {
+				sidY := sids[r.Intn(len(sids))]
+				st := snapshotDid(w.C)
+				for _, f := range funded {
+					if st.DidOf[f.AccountID()] == sidY.DID() {
+						p2, acc2 := ethProof(fmt.Sprintf("k%d", r.Intn(4)), sidY.DID(), ts, actors.BindingMessage(sidY.DID(), ts), false)
+						if variant == 1 {
+							acc2 = "eip155:1:0x" + strings.ToUpper(acc2[len("eip155:1:0x"):])
+						}
+						p2.Account = acc2
+						bind("add/eip155"+cs[len("create/eip155"):], f, f, sidY, p2, acc2, true, sidY.Versions[0].Keys)
+						break
+					}
+				}
+			}
+			bind(cs, acct, acct, sid, p, accId, !corrupt, sid.Versions[0].Keys)
 		case 8: // malformed signature strings / account ids
 			ts := now()
 			sid := actors.NewSidDid(fmt.Sprintf("m%d-%d", ctx.Job.Seed, i), ts)
